@@ -607,6 +607,13 @@ def r01_6(ctx):
 
 
 def run(ctx):
+    # a job past its hard limit is failed by the scanner: every job of a pass is tested (borrowed from C05 / timelimits)
+    from .timelimits import r05_6 as _r05_6
+    from ..report import Only as _Only
+    _r05_6(_Only(ctx, ('hard-limit-tested-for-every-job',), floor=1, doc='the time-limit scan tests the hard limit of every job of a pass (a job running past it never gets an outcome otherwise)'), 'R05.6')
+    # an accepted job needs a worker: the supervision tick refills the pool whether or not it reaped somebody itself
+    from .c09 import r09_3 as _r09_3
+    _r09_3(_Only(ctx, ('refill-on-every-tick',), floor=1, doc='every supervision tick brings the pool back to its size'))
     r01_1(ctx)
     r01_2(ctx)
     r01_3(ctx)
